@@ -189,6 +189,33 @@ func strModelSelfTest(rng *rand.Rand) int {
 			}
 		}
 	}
+	hv := NewVar("sm.h", 32)
+	h4, h1 := fmtHex(hv, 4, false), fmtHex(hv, 1, true)
+	for i := 0; i < 100000; i++ {
+		var x uint32
+		switch rng.Intn(3) {
+		case 0:
+			x = uint32(rng.Intn(0x20))
+		case 1:
+			x = uint32(rng.Intn(0x120000))
+		default:
+			x = rng.Uint32()
+		}
+		model := map[string]uint64{"sm.h": uint64(x)}
+		memo := map[*Term]uint64{}
+		if got, want := h4.eval(model, memo), fmt.Sprintf("%04x", x); got != want {
+			bad++
+			if bad < 10 {
+				fmt.Fprintf(os.Stderr, "hex model mismatch: %q want %q\n", got, want)
+			}
+		}
+		if got, want := h1.eval(model, memo), fmt.Sprintf("%X", x); got != want {
+			bad++
+			if bad < 10 {
+				fmt.Fprintf(os.Stderr, "hex model mismatch: %q want %q\n", got, want)
+			}
+		}
+	}
 	rv := NewVar("sm.r", 32)
 	p1, p2 := isPrintTerm(rv, false), isPrintTerm(rv, true)
 	for i := 0; i < 40000; i++ {
